@@ -5,7 +5,9 @@ proof:  coq/theories/C18/{DPDefs,DPProofs,DPMetric,DPTheorems,CheckDefs,CheckPro
         coordinates with squared rational distances: subsequence / ends kept, every input vertex within tol of the output
         (2 tol after the ring step), zero tolerance = identity iff no vertex on its chord (else refuted: finding F6);
         R = certified checkers for the relational clauses (line / ring / geometry, polygon hull, coverage).
-tie:    M extracted to OCaml and run beside DouglasPeuckerLineSimplifier::simplify (coordinate level, both variants) and
+tie:    G = translator unit DP_simplifySection (translator/units/C18.py): simplifySection regenerated from the C++ on every run,
+        proved (C18/DPGen.v) to compute the usePt marks of M's `kept` for every fuel >= j - i; the property facts are restated about it;
+        M extracted to OCaml and run beside DouglasPeuckerLineSimplifier::simplify (coordinate level, both variants) and
         GEOSSimplify_r (geometry level) - exact equality on tie-free inputs, relational clause always;
         GEOSTopologyPreserveSimplify_r, GEOSPolygonHullSimplify(Mode)_r, GEOSCoverageSimplifyVW_r through the extracted
         checkers; validity from GEOSisValid_r / GEOSCoverageIsValid_r, union from GEOSCoverageUnion_r.
@@ -1523,6 +1525,11 @@ def run(ctx):
         'distances over the reals: theorems depend on the standard library\'s real-number axioms only',
         'correspondence is sampled (generator quality bounds it)']
     ok_build = ctx.build_repo('rel')
+    # tie G: DouglasPeuckerLineSimplifier::simplifySection is regenerated from /repo's current source (Gen/DP_simplifySection.v);
+    # C18/DPGen.v proves it equal to the hand model `kept` - a unit that no longer translates or a proof that no longer goes
+    # through is recorded in ctx.broken (reported as VIOLATION ... no-failing-input-found unless a stream finds an input)
+    from translator.units import BY_PROPERTY
+    ctx.translate(BY_PROPERTY.get('C18', []))
     ok_coq, ax = ctx.coq_build('Properties_C18')
     if not ok_coq:
         # vlib/core.py parses the header line "Axioms:" of Print Assumptions as an axiom called 'Axioms' (only visible for theorems
